@@ -35,9 +35,10 @@ plus memo_fields_Skeleton, edge_type_values, dont_care_direction.
 Definitions used
   public   : the name does not start with '_', or it is a dunder method other than __init__ (dunder methods are
              reachable through syntax: g[x], g == h, copy(g), ...).
-  writes core state directly : see `MethodScan` below.  Receivers are treated syntactically and conservatively:
-             a local name bound (by =, for, with, comprehension, :=) from an expression that mentions a core
-             attribute or another such name is treated like the core attribute itself.
+  writes core state directly : see `MethodScan` below.  Receivers are treated syntactically and conservatively by
+             a three-level classification of expressions and local names (`level`): ALIAS (may be a core container
+             or a part of one), HOLDS (a fresh container whose elements may be), CLEAN.  Local names get their level
+             from =, augmented =, :=, for, with, comprehensions, `local.append(x)` and `local[k] = x`, to a fixpoint.
   references : every `self.<name>(...)` call, every `self.<name>` load where <name> is a method/property of one of
              the two classes (properties and bound-method values count as calls), and every `super(...).<name>`,
              the latter spelled "super().<name>".
@@ -246,8 +247,8 @@ class MethodScan:
 
     writes_direct is True when the body contains
       * a store / augmented store / delete whose target is `<x>.<core attr>` itself, or a subscript/attribute
-        reached from a core attribute or tainted local name (`self._edges_by_source[s][d] = e`,
-        `del self._lag_to_nodes[k]`, `for self._edges_by_source[k] in ...`);
+        reached from a core attribute or from a local name of level ALIAS (`self._edges_by_source[s][d] = e`,
+        `del self._lag_to_nodes[k]`, `for src, inner in self._edges_by_source.items(): inner[k] = v`);
       * a call of a container-mutating method (CONTAINER_MUTATORS) on such a receiver
         (`self._edges_by_source[s].pop(d)`, `self._lag_to_nodes[l].append(n)`);
       * a call of `_add_inbound_edge/_add_outbound_edge/_delete_inbound_edge/_delete_outbound_edge/invalidate`
@@ -540,6 +541,8 @@ def class_functions(cls, fname, allow_plain_assign=False):
         if isinstance(st, ast.FunctionDef):
             if st.name in funcs:
                 fail('method %s.%s defined twice' % (cls.name, st.name), st, fname)
+            if st.name in FORBIDDEN_NAMES:
+                fail('%s defines the reflection hook %s' % (cls.name, st.name), st, fname)
             funcs[st.name] = st
             continue
         if isinstance(st, ast.Pass):
@@ -557,7 +560,7 @@ def is_public(name):
 
 
 class ClassScan:
-    def __init__(self, fname, tree, cls_name, all_method_names_hint=None):
+    def __init__(self, fname, tree, cls_name):
         self.fname = fname
         self.cls_name = cls_name
         self.cls, self.bases = find_class(tree, cls_name, fname)
@@ -958,6 +961,11 @@ def generate(repo_root):
                 sc = c.scans[r]
                 if sc.kind not in ('instance', 'property'):
                     sc.fail('memo reader is a %s' % sc.kind)
+                if sc.decorated:
+                    sc.fail('memo reader carries the reset decorator')
+                a = sc.func.args
+                if len(a.args) + len(a.posonlyargs) != 1 or a.kwonlyargs or a.vararg or a.kwarg:
+                    sc.fail('memo reader of %s takes parameters: the cached value would depend on them' % field)
 
     # ---- printing --------------------------------------------------------------------------------------------------
     out = []
